@@ -40,7 +40,7 @@ func init() {
 		Level:     "exploration",
 		Technique: "reference-model oracle at quiescence + state invariant at every commit boundary + deletion monitor (nothing at or below the canonical anchor is deleted); generated reorg histories and reorgs triggered before any chosen JSON-RPC call of a step",
 		Rule: "random cases: declarations whose plan carries block hashes, batch 1..12, concurrency 1..4, histories of steps interleaved with growth and reorgs (depth 1..4; shorter, equal, longer replacements; repeated and nested), a final growth to strictly above every recorded position, then steps until idle; " +
-			"shared-client cases: 2–4 integrations on one source client (shared segment cache, max-reads = number of integrations) with reorgs, growth and restarts, judged per pair; sweep cases: for each base history a fault-free run lists every RPC request of every step, and a reorg is triggered right before each of them in turn. signature = (mode, plan, batch class, concurrency>1, reorg kinds seen, unwind depth class, trigger method); trivial = shovel never had to delete anything.",
+			"shared-client cases: 2–4 integrations on one source client (shared segment cache, max-reads = number of integrations) with reorgs, growth and restarts, judged per pair; sweep cases: for each base history a fault-free run lists every RPC request of every step, and a reorg is triggered right before each of them in turn. signature = (mode, plan, batch class, concurrency>1, reorg kinds seen, unwind depth class, trigger method); trivial = shovel never had to delete anything. A fifth of the histories with batch_size > 2 restart with batch_size 1–2 half way, index two steps and meet a reorg of depth 3–5 (position rows written with the larger batch size stand for several blocks each).",
 		Assumptions: []string{
 			"'the source settles' is read as: it stops reorganising and keeps producing at least one block above every position ever recorded (a replaced block at the position itself is only detectable through the next block's parent hash)",
 			"only plans that fetch headers or full blocks carry parent hashes (the property's 'data plan includes block hashes')",
